@@ -842,6 +842,8 @@ def shards(tier, seed):
         out.append({"model": name, "source": source, "part": "identifiers", "tier": tier, "seed": seed})
         if source == "loaded":
             out.append({"model": name, "source": source, "part": "reuse", "tier": tier, "seed": seed})
+        if source == "loaded" and name == "logistic_d2_s1_diag":
+            out.append({"model": name, "source": source, "part": "long_chain", "tier": tier, "seed": seed})
         for cohort in COHORTS[tier]:
             if not ingestible(spec, cohort):
                 continue
@@ -874,6 +876,13 @@ def shard_cases(shard):
             for algo in ("mean_posterior", "mode_posterior"):
                 yield dict(base, cohort=cohort, labels="alpha", form="data", via="kwargs", algo=algo,
                            settings={"n_iter": 5, "burn": "frac0.5", "annealing": "off"}, seed=0)
+    elif shard["part"] == "long_chain":
+        # more than a thousand kept draws (a number that is not a round one): the mean is the mean of ALL of them, equally weighted
+        for algo, n_iter, burn in (("mean_posterior", 1100, "frac0"), ("mode_posterior", 1100, "frac0"), ("mean_posterior", 2300, "frac0.5")):
+            if tier == "quick" and n_iter > 1100:
+                continue
+            yield dict(base, cohort=["a"], labels="alpha", form="data", via="kwargs", algo=algo,
+                       settings={"n_iter": n_iter, "burn": burn, "annealing": "off"}, seed=0)
     elif shard["part"] == "reuse":
         for cohort, prior in ((["c", "a", "b"], ["e", "d", "a"]), (["e", "d"], ["a", "b", "c"]), (["a"], ["b"])):
             if not (ingestible(spec, cohort) and ingestible(spec, prior)):
